@@ -266,6 +266,28 @@ class Methods:
         if name == 'join':
             sep = tostr(obj)
             out = []
+            from .interp import OpaqueSeq
+            if isinstance(args[0], OpaqueSeq) and len(sep) == 0:
+                el = args[0].elem
+                if isinstance(el, (str, FixedStr)) and isinstance(args[0].src, LongStr):
+                    el = tostr(el)
+                    dom = EMPTY
+                    for c in el.chars:
+                        dom = dom.union(self._dom(c))
+                    src = args[0].src
+                    if len(el) == 1 and args[0].cond is None:
+                        pre = [ctx.fresh_char(dom) for _ in src.pre]
+                        suf = [ctx.fresh_char(dom) for _ in src.suf]
+                        ctx.mark_approx('join over a long string')
+                        return LongStr(pre, suf, src.L, dom)
+                    if len(el) >= 1 and args[0].cond is None:
+                        pre = [ctx.fresh_char(dom) for _ in src.pre]
+                        suf = [ctx.fresh_char(dom) for _ in src.suf]
+                        L2 = ctx.fresh_int('L')
+                        ctx.add(L2 >= src.L)
+                        ctx.mark_approx('join over a long string')
+                        return LongStr(pre, suf, L2, dom)
+                raise Unsupported('join of an unbounded sequence')
             items = self.iter(args[0])
             for i, it in enumerate(items):
                 if isinstance(it, AbstractStr):
